@@ -39,18 +39,21 @@ Theorem C08_later_results_unchanged :
 Proof. intros p Ha o k v0 Hf p2 o2 k2. rewrite (atomicb_sound p Ha o k v0 Hf). reflexivity. Qed.
 Print Assumptions C08_later_results_unchanged.
 
-(* ---- the code as pinned violates the statement: concrete failing runs of the faithful traces *)
+(* ---- the code as pinned (before the repairs 6d14b1b4, fe1fba29, 82a01923) violated the statement:
+   concrete failing runs of the traces the translator extracts from that tree.  The witnesses were
+   replayed on the real code by the fault-injection harness (fault points 6.. of the EM call,
+   7..13 of find_matches_to_new_records, 1..8 of compare_two_records). *)
 Definition zero : vstate := fun _ => 0%Z.
 
 Theorem C08_em_refuted :
   exists o k v0, failed (run_op em_pinned o k v0) <> None /\ visible (run_op em_pinned o k v0) <> vis_of v0.
-Proof. exists [(0, false); (1, false)], (Some (4, 0)), zero. vm_compute. split; discriminate. Qed.
+Proof. exists [(0, false); (2, true); (1, false)], (Some (4, 0)), zero. vm_compute. split; discriminate. Qed.
 Print Assumptions C08_em_refuted.
 
 (* also by the user-level failure "training rule yields no pairs" (no backend fault at all) *)
 Theorem C08_em_no_pairs_refuted :
   exists o v0, failed (run_op em_pinned o None v0) = Some 7 /\ visible (run_op em_pinned o None v0) <> vis_of v0.
-Proof. exists [(0, false); (1, false); (2, true)], zero. vm_compute. split; [reflexivity | discriminate]. Qed.
+Proof. exists [(0, false); (2, true); (1, false); (3, true)], zero. vm_compute. split; [reflexivity | discriminate]. Qed.
 Print Assumptions C08_em_no_pairs_refuted.
 
 Theorem C08_find_matches_refuted :
